@@ -88,6 +88,10 @@ func (self *FieldMask) print(buf *strings.Builder, indent int, desc *thrift_refl
 	if !self.Exist() {
 		return
 	}
+	if self.typ != FtScalar {
+		// NOTICE: a scalar prints the name it is declared with
+		desc = unwrapDesc(desc)
+	}
 	if self.typ == FtStruct {
 		st, err := desc.GetStructDescriptor()
 		if err != nil {
